@@ -78,6 +78,48 @@ def norm_callee(name, p):
     return name
 
 
+def _pure_scalar(e):
+    # no subscripts, calls, assignments, increments: evaluation order cannot matter and nothing is guarded
+    return not any(x.k in ('Index', 'Call', 'Assign') or (x.k == 'Unary' and x.a.get('op') in ('++', '--', 'post++', 'post--', '*')) for x in e.walk())
+
+
+def _ckey(c):
+    t = canon(c, ids=False)
+    return (re.sub(r'[dzscDZSCQ]', '', t), len(t))      # the precision letters must not decide the order
+
+
+def _commute(e):
+    """order-normalised copy of an expression: operands of == and != and the operands of chains of || / && whose members are all pure scalar
+    tests (fields and plain variables only) are sorted by their text, so that `X->ncol < 0 || B->ncol != X->ncol` written in another order in one
+    instantiation only is not a difference.  Chains that subscript or call keep their order (there the order is a guard)."""
+    from ..ir import N
+    if not e.c:
+        return e
+    kids = [_commute(c) for c in e.c]
+    n = N(e.k, e.t, kids, e.a, e.line, e.mac)
+    if e.k == 'Binary':
+        op = e.a.get('op')
+        if op in ('==', '!=') and _pure_scalar(n):
+            n.c = sorted(kids, key=_ckey)
+        elif op in ('||', '&&'):
+            flat = []
+
+            def fl(x):
+                x0 = strip(x)
+                if x0.k == 'Binary' and x0.a.get('op') == op:
+                    fl(x0.c[0]); fl(x0.c[1])
+                else:
+                    flat.append(x)
+            fl(n)
+            if len(flat) >= 2 and all(_pure_scalar(x) for x in flat):
+                flat.sort(key=_ckey)
+                acc = flat[0]
+                for x in flat[1:]:
+                    acc = N('Binary', e.t, [acc, x], dict(e.a), e.line, e.mac)
+                n = acc
+    return n
+
+
 class Projector(object):
     def __init__(self, f, p, key=''):
         self.f = f
@@ -131,6 +173,7 @@ class Projector(object):
         return out
 
     def text(self, e):
+        e = _commute(e)
         if self.hoisted and any(y.k == 'Ref' and y.a.get('id') in self.hoisted for y in e.walk()):
             t = canon(e, ids=False)
             for y in e.walk():
@@ -378,7 +421,7 @@ def _show(it):
 
 
 _INCDEC = re.compile(r'\((?:post)?(\+\+|--)(@?\w+)\)')
-_TRANS_TEST = re.compile(r'@?trans == TRANS\b|strncmp\(@?trans,"T",1\) == 0')
+_TRANS_TEST = re.compile(r'@?trans == TRANS\b|\bTRANS == @?trans\b|strncmp\(@?trans,"T",1\) == 0|0 == strncmp\(@?trans,"T",1\)')
 _NOTRANS = re.compile(r'NOTRANS|"N"')
 _TOK = re.compile(r'@?[A-Za-z_][A-Za-z_0-9]*|\S')
 
